@@ -860,6 +860,7 @@ func c14Witnesses() []c14Witness {
 		{1, "witness:one-more-gate", []byte("1 2\n1 1\n1 1\n\n1 1 0 1 INV\n1 1 0 1 INV\n")},
 		{1, "witness:and-input-is-own-output", []byte("1 3\n2 1 1\n1 1\n\n2 1 0 2 2 AND\n")},
 		{1, "witness:inv-input-is-own-output", []byte("2 4\n1 2\n1 1\n\n2 1 0 1 2 XOR\n1 1 3 3 INV\n")},
+		{1, "witness:negative-n2-length-holds", []byte("2 4\n1 2\n1 1\n\n2 1 0 1 2 XOR\n4 -2 0 1 2\n")},
 		{1, "witness:huge-n1", []byte("1 2\n1 1\n1 1\n\n9223372036854775807 9223372036854775807 0 1 INV\n")},
 	}
 }
@@ -963,6 +964,7 @@ func runC14(c *Ctx) error {
 	var validM, validB [][]byte
 
 	// graceful-rejection oracle + correspondence for one byte string
+	spliceKey := "" // set by the structured count splices: names n1/n2 in the oracle key
 	offer := func(format int, bs []byte, kind string, orig []byte) {
 		caseNo++
 		if format == 0 && !c14MPCLCSizesOK(bs) || format == 1 && !c14BristolSizesOK(bs) {
@@ -977,7 +979,11 @@ func runC14(c *Ctx) error {
 		switch o.class() {
 		case 2, 4:
 			rp.Detail = o.pmsg
-			c.Fail(c14PanicKey(format, o), fmt.Sprintf("%s crashes/hangs on a malformed file (%s): %s", c14Fmt[format], kind, o.pmsg), rp)
+			key := c14PanicKey(format, o)
+			if spliceKey != "" {
+				key = spliceKey + ":" + o.className()
+			}
+			c.Fail(key, fmt.Sprintf("%s crashes/hangs on a malformed file (%s): %s", c14Fmt[format], kind, o.pmsg), rp)
 		case 0:
 			if d := c14WellFormed(o.c); d != "" {
 				rp.Detail = d
@@ -1170,6 +1176,111 @@ func runC14(c *Ctx) error {
 				}
 			}
 		}
+	}
+	// structured splices of the numeric fields of Bristol gate lines and header lines (every seed)
+	for i := 0; i < c.N(2, 40); i++ {
+		r := c.rng.Fork()
+		base := GenCircuit(r, GenOpts{MinIn: 2, MaxIn: 5, MinGates: 3, MaxGates: 8, MaxOut: 2})
+		ni := base.Inputs.Size()
+		valid := c14Marshal(1, base)
+		lines := strings.SplitAfter(strings.TrimSuffix(string(valid), "\n"), "\n")
+		// lines[0..2] header, lines[3] blank, lines[4..] gates
+		withLine := func(li int, toks []string) []byte {
+			ls := append([]string(nil), lines...)
+			ls[li] = strings.Join(toks, " ") + "\n"
+			return []byte(strings.Join(ls, "") + "\n")
+		}
+		defWire := func() string { return strconv.Itoa(r.Intn(ni)) } // a circuit input: defined at every gate
+		lastTok := func(k int) string {
+			switch k % 3 {
+			case 0:
+				return []string{"XOR", "AND", "INV", "OR", "XNOR"}[r.Intn(5)]
+			case 1:
+				return defWire()
+			default:
+				return strconv.Itoa(base.NumWires - 1)
+			}
+		}
+		ng := len(base.Gates)
+		for _, gi := range []int{0, ng / 2, ng - 1} {
+			li := 4 + gi
+			orig := strings.Fields(lines[li])
+			ln := len(orig)
+			vals := []int{-3, -2, -1, 0, 1, 2, 3, 4, ln - 3, ln - 2}
+			k := 0
+			for _, n1 := range vals {
+				for _, n2 := range vals {
+					k++
+					spliceKey = fmt.Sprintf("c14:ParseBristol:gate-count-splice:n1=%d:n2=%d", n1, n2)
+					// (A) counts replaced, tokens as they are
+					toks := append([]string(nil), orig...)
+					toks[0], toks[1] = strconv.Itoa(n1), strconv.Itoa(n2)
+					offer(1, withLine(li, toks), "count-splice:keep-tokens", valid)
+					// (B) token count adjusted so that 2+n1+n2+1 == len(line) holds
+					if L := 3 + n1 + n2; L >= 3 && L <= 12 {
+						toks = []string{strconv.Itoa(n1), strconv.Itoa(n2)}
+						for len(toks) < L-1 {
+							toks = append(toks, defWire())
+						}
+						toks = append(toks, lastTok(k))
+						offer(1, withLine(li, toks), "count-splice:length-holds", valid)
+					}
+				}
+			}
+			// (C) n1 solved from n2 and the token count: the length equation holds by construction
+			for _, n2 := range vals {
+				for _, L := range []int{3, 4, 5, 6, ln, ln + 1} {
+					n1 := L - 3 - n2
+					for v := 0; v < 2; v++ {
+						k++
+						spliceKey = fmt.Sprintf("c14:ParseBristol:gate-count-splice:n1=%d:n2=%d", n1, n2)
+						toks := []string{strconv.Itoa(n1), strconv.Itoa(n2)}
+						for len(toks) < L-1 {
+							toks = append(toks, defWire())
+						}
+						toks = append(toks, lastTok(v))
+						offer(1, withLine(li, toks), "count-splice:solve-n1", valid)
+					}
+				}
+			}
+			// (D) huge values and signs
+			for _, hv := range []string{"2147483648", "4294967296", "9223372036854775807", "9223372036854775808", "18446744073709551616",
+				"-9223372036854775808", "-9223372036854775809", "+1", "+2", "-0", "+0", "-1", "01", "1.0", ""} {
+				for f := 0; f < 2; f++ {
+					spliceKey = fmt.Sprintf("c14:ParseBristol:gate-count-splice:field%d=%s", f, hv)
+					toks := append([]string(nil), orig...)
+					toks[f] = hv
+					offer(1, withLine(li, toks), "count-splice:huge-sign", valid)
+				}
+			}
+		}
+		// header lines: numGates/numWires, niv and nov with and without matching token counts
+		hv := []string{"-3", "-2", "-1", "0", "1", "2", "3", "4", "+1", "-0", "2147483647", "2147483648", "4294967296",
+			"9223372036854775807", "9223372036854775808", "18446744073709551616", "-9223372036854775808"}
+		for li := 0; li < 3; li++ {
+			orig := strings.Fields(lines[li])
+			for f := range orig {
+				for _, v := range hv {
+					spliceKey = fmt.Sprintf("c14:ParseBristol:header-splice:line%d:field%d=%s", li, f, v)
+					toks := append([]string(nil), orig...)
+					toks[f] = v
+					offer(1, withLine(li, toks), "header-splice:keep-tokens", valid)
+				}
+			}
+			if li > 0 {
+				for cnt := -2; cnt <= 4; cnt++ { // count field and number of size tokens chosen independently
+					for have := 0; have <= 3; have++ {
+						spliceKey = fmt.Sprintf("c14:ParseBristol:header-splice:line%d:count=%d:tokens=%d", li, cnt, have)
+						toks := []string{strconv.Itoa(cnt)}
+						for j := 0; j < have; j++ {
+							toks = append(toks, []string{"1", "0", "2", "-1"}[(j+cnt+8)%4])
+						}
+						offer(1, withLine(li, toks), "header-splice:count-vs-tokens", valid)
+					}
+				}
+			}
+		}
+		spliceKey = ""
 	}
 	// hand-written witnesses (the Coq `_refuted` witnesses are among them)
 	for _, w := range c14Witnesses() {
